@@ -534,6 +534,9 @@ pub struct FloodCase {
     frames: Vec<(u8, u16)>,
     /// Finally let the application read everything.
     drain: bool,
+    /// Control-frame flood instead of a DATA flood: this many CLOSE frames (no DATA at all), cycling over the streams.
+    #[serde(default)]
+    control: u16,
 }
 
 pub fn gen_flood(ch: &mut Choices) -> FloodCase {
@@ -559,7 +562,11 @@ pub fn gen_flood(ch: &mut Choices) -> FloodCase {
         total += len as usize;
         frames.push((ch.below(4) as u8, len));
     }
-    FloodCase { cfg, streams: 1 + ch.below(4) as u8, app_accepts: ch.bool(), frames, drain: ch.chance(2, 3) }
+    let control = if ch.chance(1, 4) { (cfg.read_frame_count as u16) * ch.range(2, 5) as u16 + ch.range(3, 60) as u16 } else { 0 };
+    if control > 0 {
+        frames.clear();
+    }
+    FloodCase { cfg, streams: 1 + ch.below(4) as u8, app_accepts: ch.bool(), frames, drain: ch.chance(2, 3), control }
 }
 
 const OPEN: u16 = 0;
@@ -654,6 +661,31 @@ pub fn check_flood(case: &FloodCase, st: &mut Stats) -> Result<(), String> {
             *off += *len as u64;
             total += *len as u64 + 4;
             to_local.inject(&f);
+        }
+        if case.control > 0 {
+            // control frames carry no data but each of them is a frame the multiplexer holds until the application gets to it
+            for k in 0..case.control {
+                to_local.inject(&(CLOSE | KIND_CONNECT | (k % nstreams)).to_le_bytes());
+            }
+            det::barrier().await;
+            let pulled = to_local.stats().1 - base;
+            let bound = 2 * (case.cfg.read_frame_count + 1);
+            st.class("control_frame_flood");
+            if case.control as u64 > case.cfg.read_frame_count + 1 {
+                st.nontrivial(common::fingerprint(case));
+            }
+            st.sample(|| serde_json::json!({"cfg": case.cfg, "streams": nstreams, "close_frames": case.control, "pulled": pulled, "bound": bound}));
+            if let Some(r) = run_result.lock().unwrap().clone() {
+                return Err(format!("Mux::run ended while being flooded with CLOSE frames on open streams: {r:?}"));
+            }
+            if pulled > bound {
+                return Err(format!(
+                    "the multiplexer pulled {pulled} bytes = {} CLOSE frames from the transport while the application was not reading; read_frame_count is {} (at most that many frames held plus one header read ahead = {bound} bytes)",
+                    pulled / 2,
+                    case.cfg.read_frame_count
+                ));
+            }
+            return Ok(());
         }
         det::barrier().await;
         let pulled = to_local.stats().1 - base;
